@@ -35,6 +35,17 @@ def sqrtHandler : Handler := fun lhs rhs => do
       let special := match positVal n p2 a with | none => true | some x => x ≤ 0
       return { model := toHex m, specOk := ok, reason := why, cls := if !ok && r == m then sqrtClass fast n p2 a else "",
                tag := kind ++ (if special then "/special" else if n ≤ 16 then "/nearest" else "/faithful"), trivial := special }
+    | "positnative" =>
+      -- build option POSIT_NATIVE_SQRT=1 (Newton iteration `fast_sqrt`): not modelled — the model echoes the transcript and the
+      -- spec predicate (correctly rounded up to 16 bits, faithful above) judges. Known on the pinned tree: sqrt(0) ≠ 0 and
+      -- unfaithful results for configurations wider than 16 bits.
+      let some r := parseHex rs | throw "r"
+      let (ok, why) := positSqrtOk n p2 a r
+      let special := match positVal n p2 a with | none => true | some x => x ≤ 0
+      let cls := if ok then "" else if a % 2 ^ n == 0 then "posit.sqrt.native_option.zero"
+                 else if n > 16 && !special then "posit.sqrt.native_option.wide_not_faithful" else ""
+      return { model := toHex r, specOk := ok, reason := why, cls := cls,
+               tag := kind ++ (if special then "/special" else if n ≤ 16 then "/nearest" else "/faithful"), trivial := special }
     | "fixpnt" =>
       let neg := fixVal n p2 a < 0
       if neg then
@@ -78,6 +89,10 @@ def sqrtHandler : Handler := fun lhs rhs => do
       let ok := positMonoOk n p2 a b ra rb
       return { model := toHex (f a) ++ " " ++ toHex (f b), specOk := ok, reason := "sqrt is not monotone on this pair",
                cls := if !ok && ra == f a && rb == f b then "sqrt.monotone." ++ sqrtClass fast n p2 a else "", tag := kind }
+    | "positnativepair" =>
+      let ok := positMonoOk n p2 a b ra rb
+      return { model := toHex ra ++ " " ++ toHex rb, specOk := ok, reason := "sqrt is not monotone on this pair",
+               cls := if !ok && n > 16 then "posit.sqrt.native_option.wide_not_monotone" else "", tag := kind }
     | "fixpntpair" =>
       let ok := if fixVal n p2 a ≥ 0 ∧ fixVal n p2 a ≤ fixVal n p2 b then decide (fixVal n p2 ra ≤ fixVal n p2 rb) else true
       let ma := fixSqrt n p2 a; let mb := fixSqrt n p2 b
